@@ -395,6 +395,11 @@ class Task:
         from .interp import Frame
 
         wit = {"function": self.qual, "args": {it.name: it.jsonable(c) for it, c in zip(self.inputs, concs)}}
+        vals = {it.name: c for it, c in zip(self.inputs, concs)}
+        for it in getattr(self, "assumes", []):
+            if getattr(it, "check", None) is not None and not it.check(vals):
+                wit["note"] = f"input does not satisfy the harness assumption {it.name}; not replayed"
+                return wit, False
         m, node, cls = source.find(self.qual)
         path = Path(Engine(2000), [])
         I = Interp(path, self.contracts, self.inline, {})
